@@ -95,6 +95,19 @@ pub fn aborts_for(n: usize, kinds: &[&str]) -> Vec<Abort> {
 
 pub fn run(ctx: &Ctx) -> Outcome {
     let mut out = Outcome::default();
+    // one real connection against a scripted peer (explicit-state BFS): what two cooperating sockets cannot
+    // produce - a transport that refuses a datagram, a peer FIN ahead of a gap in every teardown state,
+    // closing behind an MTU probe
+    {
+        use super::solo_drivers::*;
+        run_and_report(ctx, &close_refused(ctx.tier, ctx.tier.pick(7, 9)), &mut out);
+        for drv in fsm_all(ctx.tier, ctx.tier.pick(5, 6)).into_iter().filter(|d| d.name.contains("finwait") || d.name.contains("established") || d.name.contains("inflight")) {
+            run_and_report(ctx, &drv, &mut out);
+        }
+        for (path, r) in [(None, 1usize), (Some(1000usize), 0)] {
+            run_and_report(ctx, &mtu_close(ctx.tier, path, r, ctx.tier.pick(6, 7)), &mut out);
+        }
+    }
     let mut scns: Vec<Scenario> = lib::core().into_iter().map(prepare).collect();
     scns.push(prepare(lib::early_shutdown()));
     scns.push(prepare(lib::wrapped_drop_close()));
